@@ -3,8 +3,8 @@
    ScopeProofs.v), with the axioms it rests on. *)
 From Coq Require Import List String Bool Arith.
 From Utap Require Import SR OpTableRef ExprSyntax Scope ScopeProofs.
-From Utap Require Import CommentLex CommentLexProofs LexModel LexProofs LexSep LexStable.
-From Utap.gen Require Import Gen_CommentRules Gen_LexRules.
+From Utap Require Import CommentLex CommentLexProofs LexModel LexProofs LexSep LexStable AliasRules.
+From Utap.gen Require Import Gen_CommentRules Gen_LexRules Gen_Rules.
 From Utap.gen Require Import Gen_OpTable.
 Import ListNotations.
 
@@ -143,6 +143,16 @@ Proof.
   apply (TE_tok gen_literals (list_ascii_of_string "x"%string) (list_ascii_of_string "<="%string) (list_ascii_of_string "5&&y"%string) KIdent); [vm_compute; reflexivity | discriminate|].
   apply (TE_here gen_literals (list_ascii_of_string "<="%string) (list_ascii_of_string "5&&y"%string) (KLit "T_LEQ"%string)); [vm_compute; reflexivity | discriminate | discriminate | intros a [=]].
 Qed.
+(* The aliases in the grammar (AliasRules.v over gen/Gen_Rules.v, the productions bison resolves, regenerated from parser.y): every production that mentions one
+   spelling of and / or / not has its twin with the other spelling, except the send marker of a synchronisation (c!), which is not a negation: wherever the
+   grammar accepts one spelling it accepts the other, with the same left-hand side and the same neighbours. *)
+Theorem C09_alias_productions_are_twinned : forall lhs rhs a b, In (lhs, rhs) gen_rules -> In (a, b) alias_pairs \/ In (b, a) alias_pairs -> mentions a rhs = true ->
+  excepted (lhs, rhs) a = false -> In (lhs, respell a b rhs) gen_rules.
+Proof. apply twinned_spec. vm_compute. reflexivity. Qed.
+Print Assumptions C09_alias_productions_are_twinned.
+Example C09_alias_twin_example : In ("BoolOrKWAnd"%string, ["T_KW_AND"%string]) gen_rules /\ In ("BoolOrKWAnd"%string, ["T_BOOL_AND"%string]) gen_rules /\ mentions "T_EXCLAM" ["Expression"; "T_EXCLAM"]%string = true.
+Proof. vm_compute. repeat split; tauto. Qed.
+
 (* the excepted case is real: two double quotes are two tokens, with a blank between them they are one string *)
 Example C09_lone_quote_example :
   lex gen_literals 5 (list_ascii_of_string """"""%string) <> lex gen_literals 5 (list_ascii_of_string """ """%string).
